@@ -103,14 +103,42 @@ Definition choose_new_args (orig_args : list arg) : list newarg :=
   ++ (if existsb is_samesite_strict orig_args then []
       else [mkNew (S_ "samesite") (EConst (S_ "'Lax'")) true]).
 
-(** HardenPyyamlCallMixin.update_call: [*args[:1], args[1].with_changes(value=SafeLoader) if len(args) > 1
-    else Arg(Loader=SafeLoader)] on updated_node.args. *)
-Definition pyyaml_args (args : list arg) (safe : expr) : list arg :=
-  firstn 1 args ++
-  [match args with
-   | _ :: a1 :: _ => set_value a1 safe
-   | _ => mkArg (Some (S_ "Loader")) 0 0 0 safe
-   end].
+(** "set parameter [name] (the parameter at position [pos]) to [v]": the argument that binds it gets the
+    value, every other argument is kept; when nothing binds it, [name=v] is appended. *)
+Definition is_plain_positional (a : arg) : bool :=
+  match kw a with None => N.eqb (star a) 0 | Some _ => false end.
+Fixpoint set_first_kw (name : str) (v : expr) (args : list arg) : option (list arg) :=
+  match args with
+  | [] => None
+  | a :: r => if kw_is name a then Some (set_value a v :: r)
+              else match set_first_kw name v r with Some r' => Some (a :: r') | None => None end
+  end.
+Definition set_param (name : str) (pos : nat) (v : expr) (args : list arg) : list arg :=
+  match set_first_kw name v args with
+  | Some r => r
+  | None =>
+      match nth_error args pos with
+      | Some a => if is_plain_positional a && forallb is_plain_positional (firstn pos args)
+                  then firstn pos args ++ set_value a v :: skipn (S pos) args
+                  else args ++ [mkArg (Some name) 0 0 0 v]
+      | None => args ++ [mkArg (Some name) 0 0 0 v]
+      end
+  end.
+
+(** HardenPyyamlCallMixin.update_call on updated_node.args.
+    PyyamlByIndex (pinned tree): [*args[:1], args[1].with_changes(value=SafeLoader) if len(args) > 1 else Arg(Loader=SafeLoader)].
+    PyyamlByParameter (repaired): the Loader= keyword argument wherever it is, else the second argument when the first two
+    are plain positionals, gets the value; otherwise Loader=SafeLoader is appended; every other argument is kept. *)
+Definition pyyaml_args (v : pyyaml_variant) (args : list arg) (safe : expr) : list arg :=
+  match v with
+  | PyyamlByIndex =>
+      firstn 1 args ++
+      [match args with
+       | _ :: a1 :: _ => set_value a1 safe
+       | _ => mkArg (Some (S_ "Loader")) 0 0 0 safe
+       end]
+  | PyyamlByParameter => set_param (S_ "Loader") 1 safe args
+  end.
 
 (** HTTPSConnectionModifier.count_positional_args / updated_args *)
 Fixpoint count_positional (l : list arg) : nat :=
@@ -135,7 +163,7 @@ Inductive hkind :=
 | HCookie                         (* secure-flask-cookie: info = _choose_new_args(original_node) *)
 | HAddArg (name : str) (v : expr) (* add_arg_to_call(updated_node, …): add-requests-timeouts, django-json-response-type *)
 | HSslTls (safe : expr)           (* upgrade-sslcontext-tls *)
-| HPyyaml (safe : expr)           (* harden-pyyaml, call branch; safe = <module or alias>.SafeLoader *)
+| HPyyaml (v : pyyaml_variant) (safe : expr)  (* harden-pyyaml, call branch; safe = <module or alias>.SafeLoader *)
 | HLimitReadline (lim : expr)     (* limit-readline: update_arg_target(updated_node, [Integer]) *)
 | HSandbox                        (* sandbox-process-creation *)
 | HTarget (target : expr)         (* secure-random: update_call_target(updated_node, target) *)
@@ -161,7 +189,7 @@ Definition on_result_found (k : hkind) (o u : expr) : expr :=
                end
       | _ => update_arg_target u (replace_args (args_of o) (ssl_protocol safe))
       end
-  | HPyyaml safe => update_arg_target u (pyyaml_args (args_of u) safe)
+  | HPyyaml v safe => update_arg_target u (pyyaml_args v (args_of u) safe)
   | HLimitReadline lim => update_arg_target u [mkArg None 0 0 0 lim]
   | HSandbox =>
       update_call_target u (EName (S_ "safe_command")) (Some (S_ "run"))
